@@ -555,6 +555,8 @@ def run(ctx):
                 shapes['hdr-ctl+payload'] += 1
             elif m_h and m_h.group('e') == m_h.group('e2') and 'encode_with_dist_header' in m_h.group('e'):
                 shapes['hdr-ctl'] += 1
+            elif _back_patched(B, flat, strip_conv, prim_of) in shapes:
+                shapes[_back_patched(B, flat, strip_conv, prim_of)] += 1
             else:
                 sem = _frame_semantic(ctx, P, B, seq_events.get(s))
                 if isinstance(sem, str) and sem in shapes:
@@ -825,6 +827,53 @@ def run(ctx):
     socket_after_guard(ctx, 'C07.8-socket-after-state-guard')
 
     send_buffer_own(ctx, 'C07.9-frame-assembled-from-empty')
+
+
+def _back_patched(B, flat, strip_conv, prim_of):
+    """The frame assembled in ONE buffer X and written with one write: put_u32(0) as a place holder, the body, then
+    X[..4] = (len(X) - 4).to_be_bytes() on every way to the write of X.  Returns the layout name of the body or None."""
+    if len(flat) < 3 or flat[0][0] != 'u32' or strip_conv(str(flat[0][1])) not in ('0', '(0 as u32)'):
+        return None
+    X = flat[0][2]
+    if flat[-1][0] != 'bytes' or str(flat[-1][1]) != X or flat[-1][2] == X or any(e[2] != X for e in flat[:-1]):
+        return None
+    # the patch: copy_from_slice(index_mut(X, ..4), to_be_bytes(len(X) - 4))
+    patches = []
+    for bb, t in B.calls():
+        if bb not in B.live_blocks() or not any(n.endswith('::copy_from_slice') for n in callee_names(t)) or len(t['args']) < 2:
+            continue
+        dst = describe(B, canon(B, t['args'][0]))
+        src = describe(B, canon(B, t['args'][1]))
+        if src.startswith('(') and src.endswith(' as &[u8])'):
+            src = src[1:-len(' as &[u8])')]
+        m = re.fullmatch(r'to_be_bytes\((?P<v>.+)\)', src)
+        if not (dst.startswith('index_mut(%s,' % X) and m and strip_conv(m.group('v')) == 'Sub(len(%s),4)' % X):
+            continue
+        o = B.origin(t['args'][0])
+        rng_ok = False
+        if o and o[0] == 'call':
+            it = B.blocks[o[2]]['t']
+            if len(it['args']) > 1:
+                ro = B.origin(it['args'][1])
+                if ro and ro[0] == 'agg' and 'RangeTo' in str(ro[1].get('adt', '')) + str(ro[1].get('ak', '')) + str(B.local_ty(it['args'][1].get('pl', {}).get('l', 0)) if isinstance(it['args'][1], dict) else ''):
+                    ops = ro[1].get('ops') or []
+                    rng_ok = len(ops) == 1 and canon(B, ops[0]) == ('const', 4)
+        if rng_ok:
+            patches.append(bb)
+    writes = [bb for bb, t in B.calls() if bb in B.live_blocks() and prim_of(t) is not None and prim_of(t)[0] == 'w' and len(t['args']) > 1
+              and describe(B, canon(B, t['args'][1])) == X and describe(B, canon(B, t['args'][0])) != X]
+    if not patches or not writes or not all(any(B.block_dominates(p_, w_) for p_ in patches) for w_ in writes):
+        return None
+    mid = ' '.join('%s(%s)' % (e[0], e[1]) for e in flat[1:-1])
+    if re.fullmatch(r'u8\(112\) bytes\(encode\([^ ]+\)\?\) bytes\(encode\([^ ]+\)\?\)', mid):
+        return 'pt-ctl+payload'
+    if re.fullmatch(r'u8\(112\) bytes\(encode\([^ ]+\)\?\)', mid):
+        return 'pt-ctl'
+    if re.fullmatch(r'bytes\(encode_with_dist_header_multi\(.+\)\?\)', mid):
+        return 'hdr-ctl+payload'
+    if re.fullmatch(r'bytes\(encode_with_dist_header\(.+\)\?\)', mid):
+        return 'hdr-ctl'
+    return None
 
 
 def send_buffer_own(ctx, rule):
